@@ -97,7 +97,7 @@ theorem all_state_thread_local : rngInventory.all VarInfo.threadSafe = true := b
     which `cmb_random_initialize` overwrites in full and `reseed_forgets` speaks about; or a function-static memo only
     touched by its own function (argued in Rng/Inventory.lean, proved pure in §4); or foreign and unused -/
 theorem thread_locals_classified :
-    rngInventory.all (VarInfo.reseedOk rngStateVars rngSeedWrittenVars) = true := by decide
+    rngInventory.all (VarInfo.reseedOk rngStateVars rngSeedWrittenVars rngMemoVars) = true := by decide
 
 /-- the state record of the model covers exactly inventory entries (no field invented by the translator) -/
 theorem state_vars_in_inventory : rngStateVars.all (fun k => rngInventory.any (fun v => v.key == k)) = true := by decide
@@ -139,6 +139,76 @@ theorem flip_shift_defined (s : RngState) (h : s.flip_bitpos ≤ 64) : (cmb_rand
   · rename_i h0
     simp at h0 ⊢
     exact u8_dec_lt _ h0 h
+
+/-! ## 5. The function-static memo caches of the floating-point samplers hold pure functions of the argument
+
+  `cmb_random_std_gamma` (a_prev, c, d) and `cmb_random_geometric` (prev, denom) keep thread-local doubles between calls and
+  `cmb_random_initialize` does not reset them.  Their maintaining statements are regenerated from the source over an ABSTRACT
+  double arithmetic `o : FloatOps F` (Generated/Rng.lean `…_prologue`), and the theorems say: in every reachable cache state,
+  after the prologue the WHOLE cache is the same as if the sampler were called for the first time in a fresh thread — so
+  what the rest of the body reads from it depends on the argument only, not on earlier calls, seeds or trials.
+
+  Hypotheses about `double` (stated, not assumed as axioms), both true of IEEE-754 binary64 for a valid argument `x`
+  (gamma: `shape > 0.0`, release-asserted; geometric: `0 < p ≤ 1`, the documented domain, asserted in debug builds):
+    h0  `x != 0.0`                                  (x > 0)
+    h1  `!(x != y)` implies x and y are the same value (x == y with x > 0 finite or +inf: one encoding, not a NaN, not ±0) -/
+
+theorem memo_is_first_call {M F : Type} (init : M) (pro : F → M → M) (valid : F → Prop)
+    (hstep : ∀ x y, valid x → valid y → pro x (pro y init) = pro x init) :
+    ∀ m, MemoReach init pro valid m → ∀ x, valid x → pro x m = pro x init := by
+  intro m hm
+  induction hm with
+  | init => intros; rfl
+  | call y m' hy _ ih => intro x hx; rw [ih y hy]; exact hstep x y hx hy
+
+/-- `cmb_random_std_gamma`: whatever was drawn before, the cache after the prologue is that of a first call with `shape` -/
+theorem gamma_memo_pure {F : Type} (o : FloatOps F) (valid : F → Prop)
+    (h0 : ∀ x, valid x → o.ne x (o.lit "0") = true) (h1 : ∀ x y, valid x → o.ne x y = false → x = y)
+    (m₁ m₂ : cmb_random_std_gamma_Memo F) (shape : F)
+    (r₁ : MemoReach (cmb_random_std_gamma_Memo.init o) (cmb_random_std_gamma_prologue o) valid m₁)
+    (r₂ : MemoReach (cmb_random_std_gamma_Memo.init o) (cmb_random_std_gamma_prologue o) valid m₂) (hv : valid shape) :
+    cmb_random_std_gamma_prologue o shape m₁ = cmb_random_std_gamma_prologue o shape m₂ := by
+  have hstep : ∀ x y, valid x → valid y →
+      cmb_random_std_gamma_prologue o x (cmb_random_std_gamma_prologue o y (cmb_random_std_gamma_Memo.init o)) =
+      cmb_random_std_gamma_prologue o x (cmb_random_std_gamma_Memo.init o) := by
+    intro x y hx hy
+    have hx0 := h0 x hx
+    have hy0 := h0 y hy
+    by_cases hne : o.ne x y = true
+    · simp [cmb_random_std_gamma_prologue, cmb_random_std_gamma_Memo.init, hx0, hy0, hne]
+    · have hxy := h1 x y hx (by simpa using hne)
+      subst hxy
+      simp [cmb_random_std_gamma_prologue, cmb_random_std_gamma_Memo.init, hx0, hne]
+  rw [memo_is_first_call _ _ valid hstep m₁ r₁ shape hv, memo_is_first_call _ _ valid hstep m₂ r₂ shape hv]
+
+/-- `cmb_random_geometric`: likewise (`prev` is never assigned, so `denom` is recomputed from `p` on every call) -/
+theorem geometric_memo_pure {F : Type} (o : FloatOps F) (valid : F → Prop)
+    (h0 : ∀ x, valid x → o.ne x (o.lit "0") = true) (h1 : ∀ x y, valid x → o.ne x y = false → x = y)
+    (m₁ m₂ : cmb_random_geometric_Memo F) (p : F)
+    (r₁ : MemoReach (cmb_random_geometric_Memo.init o) (cmb_random_geometric_prologue o) valid m₁)
+    (r₂ : MemoReach (cmb_random_geometric_Memo.init o) (cmb_random_geometric_prologue o) valid m₂) (hv : valid p) :
+    cmb_random_geometric_prologue o p m₁ = cmb_random_geometric_prologue o p m₂ := by
+  have hstep : ∀ x y, valid x → valid y →
+      cmb_random_geometric_prologue o x (cmb_random_geometric_prologue o y (cmb_random_geometric_Memo.init o)) =
+      cmb_random_geometric_prologue o x (cmb_random_geometric_Memo.init o) := by
+    intro x y hx hy
+    have hx0 := h0 x hx
+    have hy0 := h0 y hy
+    by_cases hne : o.ne x y = true
+    · simp [cmb_random_geometric_prologue, cmb_random_geometric_Memo.init, hx0, hy0]
+    · have hxy := h1 x y hx (by simpa using hne)
+      subst hxy
+      simp [cmb_random_geometric_prologue, cmb_random_geometric_Memo.init, hx0]
+  rw [memo_is_first_call _ _ valid hstep m₁ r₁ p hv, memo_is_first_call _ _ valid hstep m₂ r₂ p hv]
+
+/- the hypotheses h0, h1 are satisfiable with valid arguments existing: integers, literals read as 0, valid = positive -/
+example : ∃ (o : FloatOps Int) (valid : Int → Prop),
+    (∀ x, valid x → o.ne x (o.lit "0") = true) ∧ (∀ x y, valid x → o.ne x y = false → x = y) ∧ valid 3 :=
+  ⟨{ lit := fun _ => 0, add := (· + ·), sub := (· - ·), mul := (· * ·), div := (· / ·), neg := (- ·), fn := fun _ x => x,
+     ne := fun a b => decide (a ≠ b), eq := fun a b => decide (a = b), lt := fun a b => decide (a < b),
+     le := fun a b => decide (a ≤ b), gt := fun a b => decide (a > b), ge := fun a b => decide (a ≥ b) },
+   fun x => 0 < x,
+   by intro x hx; simp; omega, by intro x y _ h; simpa using h, by decide⟩
 
 /-! ## Non-vacuity and concrete values -/
 
